@@ -60,6 +60,23 @@ type ctxView struct {
 	route   *fox.Route
 	params  []fox.Param
 	scope   fox.HandlerScope
+	clone   string // what a Clone() taken in the handler shows differently from the context itself ("" = nothing)
+}
+
+// cloneDiff: a deep copy taken inside a handler shows the same route, pattern, params and scope as the context
+func cloneDiff(c fox.Context) string {
+	cl := c.Clone()
+	var d []string
+	if cl.Scope() != c.Scope() {
+		d = append(d, fmt.Sprintf("scope %d vs %d", cl.Scope(), c.Scope()))
+	}
+	if cl.Route() != c.Route() || cl.Pattern() != c.Pattern() {
+		d = append(d, fmt.Sprintf("pattern %q vs %q", cl.Pattern(), c.Pattern()))
+	}
+	if a, b := showParams(slices.Collect(cl.Params())), showParams(slices.Collect(c.Params())); a != b {
+		d = append(d, "params "+a+" vs "+b)
+	}
+	return strings.Join(d, ", ")
 }
 
 func runServe(fields []string) string {
@@ -70,7 +87,7 @@ func runServe(fields []string) string {
 	var seen *ctxView
 	observe := func(kind string) fox.HandlerFunc {
 		return func(c fox.Context) {
-			seen = &ctxView{kind: kind, pattern: c.Pattern(), route: c.Route(), params: slices.Collect(c.Params()), scope: c.Scope()}
+			seen = &ctxView{kind: kind, pattern: c.Pattern(), route: c.Route(), params: slices.Collect(c.Params()), scope: c.Scope(), clone: cloneDiff(c)}
 			switch kind {
 			case "noroute":
 				http.Error(c.Writer(), "nf", http.StatusNotFound)
@@ -88,7 +105,7 @@ func runServe(fields []string) string {
 		// the redirect handler cannot be replaced: observe the context from a middleware scoped to it
 		fox.WithMiddlewareFor(fox.RedirectHandler, func(next fox.HandlerFunc) fox.HandlerFunc {
 			return func(c fox.Context) {
-				seen = &ctxView{kind: "redirect", pattern: c.Pattern(), route: c.Route(), params: slices.Collect(c.Params()), scope: c.Scope()}
+				seen = &ctxView{kind: "redirect", pattern: c.Pattern(), route: c.Route(), params: slices.Collect(c.Params()), scope: c.Scope(), clone: cloneDiff(c)}
 				next(c)
 			}
 		}),
@@ -118,7 +135,7 @@ func runServe(fields []string) string {
 	}
 	mkHandler := func(hid int) fox.HandlerFunc {
 		return func(c fox.Context) {
-			seen = &ctxView{kind: "route:" + strconv.Itoa(hid), pattern: c.Pattern(), route: c.Route(), params: slices.Collect(c.Params()), scope: c.Scope()}
+			seen = &ctxView{kind: "route:" + strconv.Itoa(hid), pattern: c.Pattern(), route: c.Route(), params: slices.Collect(c.Params()), scope: c.Scope(), clone: cloneDiff(c)}
 		}
 	}
 	for _, item := range strings.Split(fields[2], ";") {
@@ -158,6 +175,9 @@ func runServe(fields []string) string {
 		var resI, resJ string
 		bad := func(format string, args ...any) {
 			oracles = append(oracles, fmt.Sprintf("%s %s: ", method, hx(path))+fmt.Sprintf(format, args...))
+		}
+		if seen != nil && seen.clone != "" {
+			bad("a Clone() taken in the %s handler differs from the context: %s", seen.kind, seen.clone)
 		}
 		switch {
 		case seen == nil:
@@ -278,7 +298,7 @@ var oddSegs = []string{"https:evil.com", "a:b", "a b", "a%b", "a#b", "é", "a?b"
 	":id", "::", ":", "a:", "?q", "#f", "%41", "%", "%2F", "..a", "...", "a..", "~", "@", "=", "a@b:c", "//x"[1:], "javascript:alert(1)", " ", "\\x"}
 
 // raw (wire) segments: escapes the default encoder would not produce, and bytes that are not a valid encoding
-var rawSegs = []string{"%2E%2E", "%2e%2E", "%2E", "a%2Fb", "%2F", "\xc3\xa9", "caf\xc3\xa9", "a<b", "a\"b", "a#b", "%41", "a%20b", "%7Bx%7D",
+var rawSegs = []string{"l\xc3\xa0%3F", "\xc3\xa9%25", "a<b%23", "\xff%2F", "%3F\xc3\xa9%3f", "a\"%", "\xc3\xa9%4", "%2E%2E", "%2e%2E", "%2E", "a%2Fb", "%2F", "\xc3\xa9", "caf\xc3\xa9", "a<b", "a\"b", "a#b", "%41", "a%20b", "%7Bx%7D",
 	"a%3Ab", "%3Aid", "a|b", "a^b", "x%C3%A9", "a%25b", "{x}", "a`b", "%2e%2e%2Fq"}
 
 // escapeWire: the request target as a client would put it in a URL string: bytes that cannot appear in a URL are
